@@ -327,7 +327,7 @@ def plan(tier):
     return {'shards': 16, 'budget_s': 900}
 
 
-SIZES = {'quick': dict(docs=12000, sweep_every=5, variants=1), 'thorough': dict(docs=90000, sweep_every=1, variants=1)}
+SIZES = {'quick': dict(docs=12000, sweep_every=5, variants=1), 'thorough': dict(docs=500000, sweep_every=1, variants=2)}
 
 
 def run(ctx):
